@@ -1,31 +1,8 @@
-(* PipeInv4.v -- the monitor reader and the devices as the HAL sees them. *)
+(* PipeInv4.v -- preservation of invariant group 4 (monitor reader; devices as the HAL sees them). *)
 From Coq Require Import List Bool Arith NArith Lia.
 From RecordUpdate Require Import RecordSet.
-From Pipe Require Import PipeModel PipeFacts PipeTac PipeInv1 PipeInv2 PipeInv3.
+From Pipe Require Import PipeModel PipeFacts PipeTac PipeInvDefs.
 Import ListNotations RecordSetNotations.
-
-Definition flush_idle (c : cstop) : bool :=
-  match c with CFlush0 | CFlush | CFlushMapping | CFlushMapped _ | CStopped => true | _ => false end.
-Definition start_cam_up (c : cstart) : bool := match c with TCamStarted | TFailed => true | _ => false end.
-Definition start_sto_or_failed (c : cstart) : bool :=
-  match c with TStoStarted | TAccepted | TRegEnter | TRegMapped | TRegDone | TFailed => true | _ => false end.
-
-Record Inv4 (s : stream) : Prop := {
-  m_seen : seen s = seg (log s) (mon_cur s - length (seen s)) (length (seen s)) /\ length (seen s) <= mon_cur s;
-  m_unreg : mon_reg s = false -> seen s = [];
-  m_fresh : mon_fresh s = true -> base s <= mon_cur s - length (seen s);
-  m_idle : flush_idle (c_stop s) = true -> workers_idle s = true;
-  m_flushed : match c_stop s with
-              | CFlushMapped k => mon_map s = (if Nat.eqb k 0 then None else Some k) /\ (k = 0 -> mon_cur s = length (log s)) /\ mon_reg s = true
-              | CStopped => mon_reg s = true -> mon_cur s = length (log s) /\ mon_map s = None
-              | CFlush0 | CFlush | CFlushMapping => mon_reg s = true
-              | _ => True
-              end;
-  d_cam : cam_st s = HRunning -> start_cam_up (c_start s) = true \/ src_has_cam (s_pc s) = true;
-  d_sto : sto_st s = HRunning -> start_sto_or_failed (c_start s) = true \/ sink_has_sto (k_pc s) = true;
-  d_camopen : cam s = None -> cam_st s = HAwait;
-  d_stoopen : sto s = None -> sto_st s = HAwait
-}.
 
 Lemma inv4_init : Inv4 init_stream.
 Proof. constructor; cbn; auto; try discriminate; try congruence; try lia; try (intuition discriminate). Qed.
@@ -36,14 +13,14 @@ Proof.
   step_cases s H; unfold quiet, workers_idle, sink_finish, mon_k, ncommitted in *; cbn in *; constructor; unfold quiet, workers_idle, mon_k, ncommitted; cbn;
     try reflexivity; try assumption; split_goal_ifs; fin.
   all: try (intros Hm; apply andb_true_iff in Hm; destruct Hm as [_ Hm]; apply Nat.eqb_eq in Hm; lia).
-  all: try (destruct m_seen0 as [Hs1 Hs2];
+  all: try (destruct m_seen as [Hs1 Hs2];
             match goal with
             | |- ?sn ++ seg ?l ?cur ?c = _ /\ _ =>
                 destruct (seen_step l sn cur c Hs1 Hs2 ltac:(lia)) as (Ha & Hb & Hc); split; [exact Ha | exact Hb]
             | |- _ = true -> _ <= ?cur + ?c - length (?sn ++ seg ?l ?cur ?c) =>
-                destruct (seen_step l sn cur c Hs1 Hs2 ltac:(lia)) as (Ha & Hb & Hc); rewrite Hc; exact m_fresh0
+                destruct (seen_step l sn cur c Hs1 Hs2 ltac:(lia)) as (Ha & Hb & Hc); rewrite Hc; exact m_fresh
             | |- ?sn = seg (?l ++ ?x) _ _ /\ _ => split; [apply seen_commit; [exact Hs1 | exact Hs2 | lia] | exact Hs2]
             end).
-  all: try (specialize (m_unreg0 eq_refl); subst; cbn; split; [reflexivity | lia]).
-  all: try (intros Hr; rewrite (m_unreg0 Hr); rewrite Nat.min_0_r; reflexivity).
+  all: try (specialize (m_unreg eq_refl); subst; cbn; split; [reflexivity | lia]).
+  all: try (intros Hr; rewrite (m_unreg Hr); rewrite Nat.min_0_r; reflexivity).
 Qed.
